@@ -107,16 +107,59 @@ fn build_table(ctx: &Ctx, thorough: bool) -> Vec<ExText> {
     table
 }
 
+/// Large probe streams: a long first document that fills the parser's tables (thousands of
+/// anchors, tag handles, keys) followed by a small document that refers back to them.
+pub const PROBE_FAMILIES: [&str; 4] = ["anchors-aliases", "anchored-small-collections", "tag-directives", "map-entries"];
+pub const PROBE_SIZES: [usize; 3] = [8_000, 80_000, 200_000];
+pub const PROBE_TAILS: [&str; 7] = [
+    "",
+    "--- *a7\n",
+    "--- *c7\n",
+    "--- &a7 z\n--- *a7\n",
+    "...\n*a7\n",
+    "--- !h1!a b\n",
+    "--- [*a1, &a1 x, *a1]\n--- *a1\n",
+];
+pub fn probe_count() -> u64 {
+    (PROBE_FAMILIES.len() * PROBE_SIZES.len() * PROBE_TAILS.len() * 3) as u64
+}
+fn probe_case(k: u64) -> Case {
+    let client = [Client::PeekNext, Client::LoadMulti, Client::LoadSingle][(k % 3) as usize].clone();
+    let k = k / 3;
+    let tail = PROBE_TAILS[(k % PROBE_TAILS.len() as u64) as usize];
+    let k = k / PROBE_TAILS.len() as u64;
+    let size = PROBE_SIZES[(k % PROBE_SIZES.len() as u64) as usize];
+    let fam = PROBE_FAMILIES[((k / PROBE_SIZES.len() as u64) % PROBE_FAMILIES.len() as u64) as usize];
+    let mut text = crate::scale::render(fam, size);
+    if !text.ends_with('\n') {
+        text.push('\n');
+    }
+    text.push_str(tail);
+    Case {
+        prop: "C17".into(),
+        gen: "L-probe".into(),
+        text,
+        input: if k % 2 == 0 { InputKind::Str } else { InputKind::Buffered },
+        peeks: if client == Client::PeekNext { vec![0, 1, 0, 0, 2, 0, 0, 0, 1, 1, 0] } else { vec![] },
+        extra_calls: (k % 7) as u8,
+        client,
+        ..Case::default()
+    }
+}
+
 pub fn exhaustive_plan(ctx: &Ctx, thorough: bool) -> (u64, String) {
     let t = EX_TABLE.get_or_init(|| build_table(ctx, thorough));
     let total = t.last().map_or(0, |e| e.offset + e.count);
     let max_m = t.iter().map(|e| e.m).max().unwrap_or(0);
     (
-        total,
+        total + probe_count(),
         format!(
-            "every peek/next history (0..2 peeks before each next, 7 after-StreamEnd tails) of {} streams with up to {} events",
+            "every peek/next history (0..2 peeks before each next, 7 after-StreamEnd tails) of {} streams with up to {} events; plus {} large probe streams ({:?} at {:?} bytes x 7 back-referring tail documents x 3 clients)",
             t.len(),
-            max_m
+            max_m,
+            probe_count(),
+            PROBE_FAMILIES,
+            PROBE_SIZES
         ),
     )
 }
@@ -131,6 +174,9 @@ fn draw_env(r: &mut SplitMix64) -> InputKind {
 }
 
 pub fn generate(run_seed: u64, ctx: &Ctx, sw: &Swarm, i: u64, exhaustive: u64) -> Case {
+    if i < exhaustive && i >= exhaustive - probe_count() {
+        return probe_case(i - (exhaustive - probe_count()));
+    }
     if i < exhaustive {
         let t = EX_TABLE.get().expect("exhaustive table");
         let idx = match t.binary_search_by(|e| {
